@@ -477,6 +477,7 @@ func manyArgs(named bool) string {
 
 func plants() []*plant {
 	ps := []*plant{}
+	none := func(o [6]bool, _ string) []string { return nil }
 	ex := func(kind, text, rule string) {
 		ps = append(ps, &plant{Kind: kind, IsExpr: true, Expr: text, Expect: always(rule)})
 	}
@@ -585,6 +586,11 @@ func plants() []*plant {
 	st("global-reassign", []string{"top"}, []string{"gg = 1", "---", "\x01gg = 2"}, gr("RReassign"))
 	st("global-reassign-def", []string{"top"}, []string{"gg = 1", "---", "def \x01gg():", "pass"}, gr("RReassign"))
 	st("global-reassign-aug", []string{"top"}, []string{"gg = 1", "---", "\x01gg += 2"}, gr("RReassign"))
+	st("global-reassign-after-tuple", []string{"top"}, []string{"ga, gb = 1, 2", "---", "\x01ga = 3"}, gr("RReassign"))
+	st("def-twice", []string{"top"}, []string{"def gd(): pass", "---", "def \x01gd(): pass"}, gr("RReassign"))
+	st("parameter-shadows-global", []string{"top"}, []string{"gp = 1", "---", "def gq(\x01gp): return gp"}, none)
+	st("comprehension-variable-shadows-global", []string{"top"}, []string{"gc = 1", "---", "log([\x01gc for gc in [1]])"}, none)
+	st("local-assignment-shadows-global", []string{"top"}, []string{"gl = 1", "---", "def gm(): \x01gl = 2"}, none)
 	st("load-twice", []string{"top"}, []string{"load(\"m.star\", \"zz\")", "---", "load(\"m.star\", \"\x01zz\")"}, func(o [6]bool, _ string) []string {
 		switch {
 		case o[oGR]:
@@ -609,7 +615,6 @@ func plants() []*plant {
 		}
 		return nil
 	})
-	none := func(o [6]bool, _ string) []string { return nil }
 	// scoping: what is visible where
 	st("comp-var-leak", []string{"top", "fn"}, []string{"log([cv for cv in [1]])", "log(\x01cv)"}, always("RUndefined"))
 	st("undefined-twice", []string{"fn", "fn-for", "fn-def"}, []string{"log(\x01nosuch2)", "log(nosuch2, [nosuch2 for q9 in [1]])"}, always("RUndefined"))
